@@ -47,9 +47,9 @@ func (e *verifElection) Campaign(context.Context) (cluster.ClusterRole, error) {
 }
 func (e *verifElection) Resign(context.Context) error { return nil }
 
-// verifSettle: natively, give the ticker goroutine the time to finish what it is doing (under the
+// verifC15Settle: natively, give the ticker goroutine the time to finish what it is doing (under the
 // engine a blocking operation of the harness lets every other goroutine run until it blocks)
-func verifSettle() {
+func verifC15Settle() {
 	if !verifSymbolic() {
 		time.Sleep(3 * time.Millisecond)
 	}
@@ -133,7 +133,7 @@ func VerifC15Ticker() {
 		if ended {
 			break
 		}
-		verifSettle()
+		verifC15Settle()
 		// the tick has been handled (the goroutine is back at its select, or gone)
 		verifCover(calls > before, "c15.ticker.renewed")
 		select {
